@@ -33,6 +33,7 @@ func main() {
 		{"ResArith", genResArith},
 		{"Consts", genConsts},
 		{"AppFsm", genAppFsm},
+		{"ConfConsts", genConfConsts},
 	}
 	for _, g := range gens {
 		if only != "" && only != g.name {
